@@ -6,6 +6,7 @@ import Csvq.Model.UnaryPrint
 import Csvq.Model.OpExpr
 import Csvq.Model.Clause
 import Csvq.Model.Query
+import Csvq.Model.SubQuery
 import Csvq.Model.Label
 import Csvq.Model.LalrTables
 namespace Csvq.Drive
@@ -185,6 +186,30 @@ def qryx (words : List String) : String :=
     | some q => showQuery q ++ " | " ++ String.intercalate " " ((printQuery genTable q).map tokToWord)
     | none => "ERR"
 
+
+open Csvq.OpExpr Csvq.Clause Csvq.Query Csvq.SubQuery Csvq.Gen.Precedence in
+mutual
+def showNQ : NQ Term → String
+  | .mk skel subs => showQuery skel ++ "{" ++ showNQs subs ++ "}"
+def showNQs : NQs Term → String
+  | .nil => ""
+  | .cons q .nil => showNQ q
+  | .cons q (.cons a b) => showNQ q ++ ";" ++ showNQs (.cons a b)
+end
+
+open Csvq.OpExpr Csvq.Clause Csvq.Query Csvq.SubQuery Csvq.Gen.Precedence in
+/-- `c18.nq`: queries with sub-queries as values and as tables (Model/SubQuery.lean, nesting depth ≤ 8): the shape of the
+    skeleton, the shapes of its sub-queries in text order, the printed tokens; or ERR.  The atom codes 8 i + 2 are the
+    sub-query atoms here, so back-quoted identifiers (which the other ops code that way) are not admitted. -/
+def nqx (words : List String) : String :=
+  if words.any (fun w => w.front = '`') then "bad-op" else
+  match words.mapM wordToTok with
+  | none => "bad-op"
+  | some ts =>
+    match parseNWhole genTable genLv 8 ts with
+    | some q => showNQ q ++ " | " ++ String.intercalate " " ((printN genTable q).map tokToWord)
+    | none => "ERR"
+
 /-! `c18.lbl`: Field.Name() of every item of a select list, as the text the header line shows -/
 
 open Csvq.OpExpr Csvq.Label Csvq.Gen.Precedence in
@@ -258,6 +283,7 @@ def c18 (cmd : String) (args : List String) : String :=
   | "opx", l => opx l
   | "sel", l => selx l
   | "qry", l => qryx l
+  | "nq", l => nqx l
   | "lbl", l => lblx l
   | "lalr", l => lalrOp l
   | "unary", l =>
